@@ -385,7 +385,7 @@ impl Accept {
     fn accept_one(&mut self, mut conn: Conn) {
         loop {
             #[cfg(actix_net_verif)]
-            crate::verif::point(crate::verif::Point::AcceptOneIter);
+            crate::verif::point(verif_accept::view_point(self));
 
             let next = self.next();
             let idx = next.idx();
